@@ -412,6 +412,14 @@ def run_pipe(spec, res):
                     ref = e1
                     try:
                         ds = wrap(base)
+                        if stable_hash(repr(prog)) % 2:
+                            # an iterator that is requested but never started
+                            # (iter(ds) dropped, zip([], ds)) is not an epoch
+                            it0 = iter(ds)
+                            del it0
+                            for _ in zip([], ds):
+                                pass
+                            res.count('unstarted_iterators_before_the_epochs')
                         got = list(ds)
                         got2 = list(ds)
                     except BaseException as e:
